@@ -1317,10 +1317,12 @@ func checkPinType(pin *api.Pin) error {
 			return errors.New("data pins should not reference other pins")
 		}
 	case api.ShardType:
-		if pin.MaxDepth != 1 {
-			return errors.New("must pin shards go depth 1")
+		// depth 1 covers the links of a shard. Shards with more links
+		// than fit in one node have an indirect link DAG and are
+		// pinned at depth 2 (see sharding.shard.Flush).
+		if pin.MaxDepth != 1 && pin.MaxDepth != 2 {
+			return errors.New("must pin shards to depth 1 (or 2 when indirect)")
 		}
-		// FIXME: indirect shard pins could have max-depth 2
 		// FIXME: repinning a shard type will overwrite replication
 		//        factor from previous:
 		// if existing.ReplicationFactorMin != rplMin ||
